@@ -23,7 +23,7 @@ func (p *c41) Setup(env *fw.Env) error {
 	p.Env = env
 	installHooks()
 	p.N = env.Pick(3000, 150000)
-	p.RuleS = "random runs on a pair of fakenet connections joined by io.Pipe / os.Pipe / net.Pipe: 1..3 writer goroutines per direction send frames (writer id, sequence number, length, payload, CRC), one reader per direction reads with random buffer sizes 1..64, a closer calls Close (sometimes twice, sometimes on both ends) at a random step or after a clean drain; yield hooks between the two selects of the feeder and around the source call. Oracle: (1) the received byte stream parses into intact frames whose sequence numbers per writer are 0,1,2,… without gap, duplicate or reordering, followed by at most one partial frame and only if a Close happened; after a clean drain every successfully written frame was received; (2) every Read/Write started after Close has returned yields (0, io.EOF); (3) every call pending at Close returns (a stuck call is a deadlock by the worker's goroutine-state monitor). The harness never touches a buffer again after its call returned EOF-on-close. Built with -race. Non-trivial = run with >=2 writers and >=20 frames."
+	p.RuleS = "random runs on a pair of fakenet connections joined by io.Pipe / os.Pipe / net.Pipe: 1..3 writer goroutines per direction send frames (writer id, sequence number, length, payload, CRC), one reader per direction reads with random buffer sizes 1..64, a closer calls Close (sometimes twice, sometimes on both ends) at a random step or after a clean drain; yield hooks between the two selects of the feeder and around the source call. Oracle: (1) the received byte stream parses into intact frames whose sequence numbers per writer are 0,1,2,… without gap, duplicate or reordering, followed by at most one partial frame and only if a Close happened; after a clean drain every successfully written frame was received; (2) every Read/Write started after Close has returned yields (0, io.EOF); (3) every call pending at Close returns (a stuck call is a deadlock by the worker's goroutine-state monitor) and, if it reports an error, reports io.EOF — a Read on the closing side is kept pending in every run. The harness never touches a buffer again after its call returned EOF-on-close. Built with -race. Non-trivial = run with >=2 writers and >=20 frames."
 	p.Assume = []string{"one reader per direction (several readers make the byte stream order unobservable)", "a feeder goroutine may still own the buffer of a call that returned EOF on close (inherent in the design, outside the statement)"}
 	p.Floor = map[string]int{"#evaluations": p.N / 2, "#nontrivial": p.N / 8, "frames-received": p.N * 5, "close:mid-stream": p.N / 8, "close:clean": p.N / 8, "post-close-calls": p.N, "pending-at-close-returned": 200, "pipe:io": 300, "pipe:os": 300, "pipe:net": 300, "yield-points": p.N * 5, "distinct-orderings": p.N / 4}
 	return nil
@@ -150,6 +150,10 @@ func (p *c41) Run(c fw.Case, r *fw.Rec) {
 					fail("fakenet:write-after-close-not-EOF", fmt.Sprintf("Write started after Close returned gave (%d, %v), want (0, EOF)", nn, err))
 				}
 				if err != nil {
+					// the only reason a Write on A can fail is A's Close: pending or later, it must report EOF
+					if err != io.EOF {
+						fail("fakenet:pending-write-at-close-not-EOF", fmt.Sprintf("a Write that was pending when Close ran returned (%d, %v), want an end-of-file error", nn, err))
+					}
 					return // buffer may still be owned by the feeder: never touched again
 				}
 				if nn != len(buf) {
@@ -185,6 +189,15 @@ func (p *c41) Run(c fw.Case, r *fw.Rec) {
 			}
 		}
 	}()
+	// a Read on A that is pending when A is closed (nothing is ever written towards A)
+	pendingRead := make(chan struct{})
+	go func() {
+		defer close(pendingRead)
+		n, err := A.Read(make([]byte, 8))
+		if !(n == 0 && err == io.EOF) {
+			fail("fakenet:pending-read-at-close-not-EOF", fmt.Sprintf("a Read that was pending when Close ran returned (%d, %v), want (0, EOF)", n, err))
+		}
+	}()
 	if clean {
 		ww.Wait()
 		closeOnce.Do(func() { close(closeCh) })
@@ -207,7 +220,9 @@ func (p *c41) Run(c fw.Case, r *fw.Rec) {
 		}
 		r.Cover("post-close-calls")
 	}
-	ww.Wait() // pending writes must return
+	ww.Wait()     // pending writes must return
+	<-pendingRead // the pending read too (a stuck call is a deadlock for the goroutine-state monitor)
+	r.Cover("pending-read-at-close-returned")
 	if closeBoth || pname != "net" {
 		// the reader ends when the pipe reports EOF (A closed its write side); closing B too must also be safe
 		if closeBoth {
